@@ -381,7 +381,7 @@ C19 = {
         "facebook": _plat(["https://www.facebook.com", "http://m.facebook.com", "facebook.com", "https://fr-fr.facebook.com", "https://WWW.FACEBOOK.COM"],
                           ["groups", "posts", "permalink", "photos", "videos", "people", "watch", "profile.php", "permalink.php", "story.php", "photo.php", "photo",
                            "10157890123456789", "some.page", "a.10150123456789", "x", "l.php", "1234567", "12345678abc"],      # short numeric id, digit-prefixed handle
-                          ["v=1234567890", "id=100012345678", "story_fbid=10157", "fbid=10158", "set=a.10150&type=3", "set=g.123456", "u=http%3A%2F%2Fexample.com&h=AT0", "comment_id=9"],
+                          ["v=1234567890", "id=100012345678", "story_fbid=10157", "fbid=10158", "set=a.10150&type=3", "set=g.123456", "u=http%3A%2F%2Fexample.com&h=AT0", "comment_id=9", "fbid=10158&set=g.123456&set=a.10150"],
                           ["", "comment"]),
         "youtube": _plat(["https://www.youtube.com", "http://youtu.be", "youtube.com", "https://m.youtube.com", "https://www.youtube-nocookie.com"],
                          ["watch", "embed", "shorts", "channel", "user", "c", "v", "playlist", "dQw4w9WgXcQ", "UCabcdefghijklmnopqrstuv", "SomeName", "@handle", "short", "videos", "x",
